@@ -8,8 +8,8 @@ def run(ctx, rep):
     rep.rule = ("AndersonCD runs as in C01; the event automaton checks one history entry per outer iteration and "
                 "that the returned stop_crit is the last one computed; oracle: each entry equals loss + penalty "
                 "recomputed from X, y and the iterate logged at that time (intercept unpenalised)")
-    run_parallel(ctx, rep, oracles=["history"])
-    run_bbox(ctx, rep, oracles=["history", "history_len"])
+    run_parallel(ctx, rep, oracles=["history", "stop_value"])
+    run_bbox(ctx, rep, oracles=["history", "history_len", "stop_value"])
 
 
 def replay(ctx, payload):
